@@ -277,6 +277,40 @@ class _ExprInliner(ast.NodeTransformer):
         return new
 
 
+def expand_self_aliases(node):
+    """the function with every local that is bound exactly once, to a plain
+    `self.<field>` expression, replaced by that expression (the binding
+    itself is kept).  Order rules over the fields of an object then read the
+    same whether a field is used directly or through a local name."""
+    stores = {}
+    for n in ast.walk(node):
+        if isinstance(n, ast.Name) and isinstance(n.ctx, (ast.Store,
+                                                          ast.Del)):
+            stores[n.id] = stores.get(n.id, 0) + 1
+    for a in node.args.args + node.args.kwonlyargs:
+        stores[a.arg] = stores.get(a.arg, 0) + 1
+    alias = {}
+    for n in ast.walk(node):
+        if isinstance(n, ast.Assign) and len(n.targets) == 1 and \
+                isinstance(n.targets[0], ast.Name) and \
+                stores.get(n.targets[0].id) == 1 and \
+                isinstance(n.value, ast.Attribute) and \
+                isinstance(n.value.value, ast.Name) and \
+                n.value.value.id == 'self':
+            alias[n.targets[0].id] = n.value
+
+    class Sub(ast.NodeTransformer):
+        def visit_Name(self, n):
+            if isinstance(n.ctx, ast.Load) and n.id in alias:
+                return ast.copy_location(copy.deepcopy(alias[n.id]), n)
+            return n
+    if not alias:
+        return node
+    out = Sub().visit(copy.deepcopy(node))
+    ast.fix_missing_locations(out)
+    return out
+
+
 _CACHE = {}
 
 
@@ -297,9 +331,11 @@ def flatten(func, keep=()):
 class Flat:
     """a Func-like view of a flattened function (node/body/name/qualname)"""
 
-    def __init__(self, func, keep=()):
+    def __init__(self, func, keep=(), aliases=False):
         self.orig = func
         self.node = flatten(func, keep)
+        if aliases:
+            self.node = expand_self_aliases(self.node)
         for a in ('name', 'qualname', 'fq', 'file', 'cls', 'module',
                   'params'):
             setattr(self, a, getattr(func, a, None))
